@@ -32,7 +32,8 @@ _ACT = ("act", "IndInit", "PropAct", 1)
 SPECS = {
     "APA_ScenarioStore": {
         "cinit": "CInit", "obligations": _STD + [_ACT],
-        # Impl => Contract for every step from an IndInv state (PropRefines of MC_ScenarioStore); ~20-30 min, only with extra=True
+        # Impl => Contract for every step from an IndInv state (PropRefines of MC_ScenarioStore); 26 min measured, run only
+        # with extra=True / VERIF_APALACHE_EXTRA=1 / `python -m crv.apalache APA_ScenarioStore --extra`
         "optional": [("refine", "IndInit", "InvRefines", 1, "NextRef")],
         "devs": [("CInitDev1", "step", "DEV_ListRemoveInterKeepsIncoming"), ("CInitDev2", "act", "DEV_PartialIntersection"),
                  ("CInitDev3", "act", "DEV_PartialNetwork"), ("CInitDev4", "step", "DEV_AddNetOnNonEmpty")]},
@@ -114,7 +115,9 @@ def check_inductive(module, timeout=900, parallel=4, xmx="6g", devs=True, extra=
     t0 = time.time()
     res = {}
     with concurrent.futures.ThreadPoolExecutor(max_workers=parallel) as ex:
-        futs = {ex.submit(run, module, j[1], j[2], j[3], j[4], j[5], timeout, xmx, j[6]): j[0] for j in jobs}
+        slow = {o[0] for o in spec.get("optional", [])}         # measured: refine 26 min
+        futs = {ex.submit(run, module, j[1], j[2], j[3], j[4], j[5], max(timeout, 3000) if j[0] in slow else timeout,
+                          "16g" if j[0] in slow else xmx, j[6]): j[0] for j in jobs}
         for f in concurrent.futures.as_completed(futs):
             res[futs[f]] = f.result()
     verdicts, ok, problems, inconclusive = {}, True, [], []
